@@ -3,7 +3,9 @@
    [okM], [okch], [graph_of]) and proofs are in Proofs/V3000Render.v.
 
    M : molM is the abstract molecule (atoms with symbol / charge / radical / mass / coordinate tokens,
-   star atoms, bonds and star bonds between positions of the atom block).  ch : choices fixes what the
+   star atoms, bonds and star bonds between positions of the atom block).  okM M contains what the
+   reader insists on: no negative stated mass / radical (atom_okM: am_nonneg) and no bond line that
+   joins an atom to itself (om_noloop); files stating either are rejected (MolfileParserException).  ch : choices fixes what the
    format leaves free: the file index of every atom (any pairwise distinct integers), blank runs
    before, between and after the tokens of every V30 line, the cut points of every V30 line into
    continuation lines (any number of cuts, anywhere, empty pieces included), order / repetition /
